@@ -1,16 +1,16 @@
 ------------------------------ MODULE Trace_C05 ------------------------------
 (* Judge for C05: every byte string offered to every decoder; an accepted     *)
 (* input must be well-formed COSE of that decoder's own kind.                 *)
-EXTENDS CoseStruct, Json
+EXTENDS CoseStruct, Json, TraceKit
 Tr == ndJsonDeserialize("tr.ndjson")
 VARIABLE l
 
 Fails(e) ==
   UNION { IF e.acc[kd] /\ ~WFCose(kd, e.bytes) THEN {"accepted-not-wellformed-" \o kd} ELSE {} : kd \in Kinds }
 
-TInit == l = 1
+TInit == l = 1 /\ KitInit
 TNext == /\ l <= Len(Tr) /\ l' = l + 1
-         /\ LET f == Fails(Tr[l]) IN f = {} \/ PrintT(<<"REJECT", l, f>>)
+         /\ Note(l, Fails(Tr[l]))
 TSpec == TInit /\ [][TNext]_l
-Accepted == TLCGet("stats").diameter - 1 = Len(Tr)
+Accepted == KitDone(Len(Tr))
 =============================================================================
